@@ -165,7 +165,7 @@ def _site_dipoles(cx, N, tag="d"):
 
 
 @harness("C11", "aggregate_transitions",
-         quick=[dict(nmol=2)], thorough=[dict(nmol=2), dict(nmol=3)],
+         quick=[dict(nmol=2), dict(nmol=3)], thorough=[dict(nmol=2), dict(nmol=3)],
          functions=[F_A + ":AbsSpectrumCalculator._calculate_aggregate", F_A + ":AbsSpectrumCalculator._excitonic_coft",
                     F_A + ":AbsSpectrumCalculator.one_transition_spectrum",
                     "quantarhei/qm/hilbertspace/hamiltonian.py:Hamiltonian.diagonalize",
@@ -246,12 +246,17 @@ def aggregate_transitions(cx, nmol):
                     "quantarhei/qm/corfunctions/cfmatrix.py:CorrelationFunctionMatrix.get_coft"],
          bound="dimer (thorough trimer) of molecules with different baths, built by the real Aggregate.build in the "
                "original and in the permuted molecule order; the permuted aggregate gets the permuted Hamiltonian "
-               "P H P^T (= (PS) diag(w) (PS)^T) and dipoles: both spectra are equal at every point",
+               "P H P^T (= (PS) diag(w) (PS)^T) and dipoles, non-degenerate exciton energies: both spectra are equal "
+               "at every point (proved transition by transition: equal dipole strength, frequency, bath function "
+               "as lemmas)",
          out="that Aggregate.build itself produces the permuted H and D (decided in C03)")
 def relabelling(cx, perm):
     import quantarhei as qr
     nmol = len(perm)
     reorgs = [20 + 15 * i for i in range(nmol)]
+    if cx.sym:
+        from symnum.core import ENGINE
+        ENGINE.canonical_uf_args = True    # exp(-g(t) - i w t): the same polynomial argument -> the same term
     agg = build_aggregate(cx, nmol, Nt=4, reorgs=reorgs)
     agg2 = build_aggregate(cx, nmol, Nt=4, reorgs=reorgs, order=perm)
     N = agg.HamOp.dim
@@ -259,6 +264,10 @@ def relabelling(cx, perm):
         ta = qr.TimeAxis(0.0, 4, 1.0)
     H, w, S = spectral_hamiltonian(cx, N, block=[[0], list(range(1, N))])
     D, ds = _site_dipoles(cx, N)
+    # generic case: with degenerate exciton energies the individual transitions are not defined (only their
+    # sum is), and the proof below goes transition by transition
+    for a in range(1, N - 1):
+        cx.assume(w[a] < w[a + 1], "non-degenerate exciton energies")
     # state k+1 of the permuted aggregate is state perm[k]+1 of the original one
     idx = [0] + [p + 1 for p in perm]
     H2 = H[numpy.ix_(idx, idx)].copy()
@@ -268,8 +277,20 @@ def relabelling(cx, perm):
         h = npatch.EIGH_HANDLER[0]
         S2 = S[idx, :].copy()
         h.register(H2, w.copy(), S2, S2.T.copy())
-    _, sp = _run_aggregate(cx, agg, ta, H, D)
-    _, sp2 = _run_aggregate(cx, agg2, ta, H2, D2)
+    cap, cap2 = [], []
+    _, sp = _run_aggregate(cx, agg, ta, H, D, capture=cap)
+    _, sp2 = _run_aggregate(cx, agg2, ta, H2, D2, capture=cap2)
     cx.assume_denominators_nonzero("")
-    cx.prove_eq("axis", sp2.axis.data, sp.axis.data)
+    cx.prove("same_number_of_transitions", len(cap) == len(cap2))
+    # lemmas: what the two runs hand to the one-transition routine is pairwise equal
+    for a, (c1, c2) in enumerate(zip(cap, cap2)):
+        cx.prove_eq("same_dipole_strength[%d]" % a, c2["dd"], c1["dd"], tol=1e-9, lemma=True)
+        cx.prove_eq("same_transition_frequency[%d]" % a, c2["om"], c1["om"], tol=1e-9, lemma=True)
+        cx.prove_eq("same_exciton_bath_function[%d]" % a, c2["ct"], c1["ct"], tol=1e-9, lemma=True)
+        cx.prove_eq("same_transition_spectrum[%d]" % a, c2["out"], c1["out"], tol=1e-9, lemma=True)
+    with cx.concrete():
+        # the axes are concrete floats (the mean site energy summed in a different order differs by an ulp)
+        same_axis = sp2.axis.length == sp.axis.length and bool(numpy.allclose(
+            numpy.asarray(sp2.axis.data, dtype=float), numpy.asarray(sp.axis.data, dtype=float), rtol=0, atol=1e-12))
+    cx.prove("axis", same_axis)
     cx.prove_eq("spectrum_invariant_under_relabelling", sp2.data, sp.data, tol=1e-9)
